@@ -8,17 +8,27 @@ MANIFEST = {
     "technique": "Coq proof over a hand-written Gallina model of the decrypt side of mp4/crypto.go (on top of the C07 crypt model) "
                  "+ differential correspondence (extracted OCaml with a Gallina AES vs the Go code) + round-trip search through "
                  "the API and the built mp4ff-encrypt / mp4ff-decrypt binaries",
-    "level_text": "Theorems (coq/c06/C06Theorems.v): CryptSampleCenc applied twice is the identity for EVERY block function, key, IV "
+    "level_text": "Theorems (coq/c06/C06Theorems.v), all for unbounded inputs: CryptSampleCenc applied twice is the identity for EVERY block function, key, IV "
                   "and sub-sample map; DecryptSampleCbcs inverts EncryptSampleCbcs for every crypt:skip pattern and size whenever "
                   "D inverts E on 16-byte blocks; RemoveEncryptionBoxes (repaired text) keeps exactly the non-protection boxes in "
                   "order and counts exactly the removed bytes; for every single-traf fragment with arbitrary opaque boxes, encrypt -> "
                   "encode/decode -> decrypt restores the clear children, data offset, mdat position AND every sample byte (both schemes, any protection "
-                  "function: AVC/HEVC/audio); DecryptInit(InitProtect init) = init; third-party cenc fragments keep sample count/sizes, offsets shift by the removed bytes. Explored, not proved: that the "
-                  "Go code behaves like the model (correspondence), senc/saiz/saio and sample-entry (de)serialisation "
-                  "(round trips through real files, byte comparison with the clear file). DecryptInit(InitProtect init) = init is a theorem on the abstract init.",
+                  "function: AVC/HEVC/audio). Senc box byte for byte: C06_senc_codec parse(encode senc) = senc for every per-sample IV size 0/8/16 and every "
+                  "sub-sample layout (DecodeSenc + ParseReadBox with the written IV size, or inferred); C06_aux_consistent the saiz sizes are the byte lengths of "
+                  "the senc entries sample by sample; C06_saio_points_at_entries the saio offset addresses the first entry in the encoded moof and passes "
+                  "ParseReadSenc's check; C06_senc_transport_cenc/_cbcs the decoder hands decryptSamplesInPlace exactly the IV / sub-sample lists the fragment "
+                  "theorems assume. Sample location: the trex is a parameter of both sides (C06_fragment_roundtrip_trex_cenc restores the whole mdat payload "
+                  "when they agree, C06_trex_mismatch_refuted shows it false otherwise). Whole files: C06_file_roundtrip_cenc by induction over the fragment list "
+                  "(cumulative position shift, same IV per fragment as the code does, re-encoded layout = clear layout, every sample restored). Init: "
+                  "DecryptInit(InitProtect init) = init, and C06_init_restore_all for every number of tracks and sample entries with arbitrary entry children. "
+                  "Refuted with witnesses reproduced on the real code: C06_mixed_subsamples_refuted (known finding C06-F4). Third-party cenc fragments keep "
+                  "sample count/sizes, offsets shift by the removed bytes. Explored, not proved: that the Go code behaves like the model (correspondence), "
+                  "sinf/tenc/sample-entry (de)serialisation to bytes, cbcs length preservation for the file/trex theorems (generic theorem with that hypothesis), "
+                  "sidx (known finding C06-F3), absolute tfhd base_data_offset (C06-F2).",
     "level_note": "Trusted: Coq kernel, extraction, OCaml/Go glue. Modelled, not verified: crypto/aes, cipher CTR/CBC, box "
-                  "(de)serialisation (boxes are opaque kind/size/identity triples), GetFullSamples. The fragment theorem is about "
-                  "structure; sample bytes are covered by the two crypt theorems plus the IV observations of the correspondence.",
+                  "(de)serialisation other than senc/saiz/saio (boxes are opaque kind/size/identity triples; sample-entry children are opaque identities), "
+                  "16-byte box headers, trun/tfhd fields other than the sample sizes. The senc theorems are about the SencBox states EncryptFragment builds "
+                  "(all samples of a fragment with, or all without, a sub-sample map: `uniform`).",
 }
 
 
@@ -34,14 +44,20 @@ def build(ctx):
 
 def run(ctx):
     ctx.cov["trusted_base"] = common.TRUSTED_BASE_COMMON + [
-        "model: coq/c06/C06Model.v (decryptSamplesInPlace, TrafBox.RemoveEncryptionBoxes after the fix commit, MoofBox.RemovePsshs, "
+        "model: coq/c06/C06SencModel.v (SencBox.Encode/calcSize, DecodeSenc, ParseReadBox, parseAndFillSamples, ParseReadSenc, saiz/saio encode), "
+        "C06TrexModel.v (GetFullSamples size resolution trun/tfhd/trex, files), C06EntryModel.v + C06InitModel.v (InitProtect/DecryptInit), "
+        "coq/c06/C06Model.v (decryptSamplesInPlace, TrafBox.RemoveEncryptionBoxes after the fix commit, MoofBox.RemovePsshs, "
         "DecryptFragment offset arithmetic, EncryptFragment's box additions, SetTrunDataOffsets) + coq/c07/C07Model.v (sample crypt)",
         "coq/c07/C07Aes.v AES-128 (encrypt + decrypt) validated against FIPS-197 vectors, used only in the correspondence",
     ]
     ctx.assumptions += ["one traf / one trun per fragment on the encrypt side (EncryptFragment rejects anything else)",
                         "cbcs inverse: E, D map to 16-byte blocks and D k (E k b) = b for 16-byte b; sub-sample map fits the sample (< 2^32 bytes)",
                         "clear input fragments carry no pssh/saiz/saio/senc boxes of their own",
-                        "fragment theorems: default-base-is-moof addressing (an absolute tfhd base_data_offset is known finding C06-F2)"]
+                        "fragment theorems: default-base-is-moof addressing (an absolute tfhd base_data_offset is known finding C06-F2)",
+                        "senc theorems: every sample of a fragment has a sub-sample map or none has (mixed fragments: known finding C06-F4); senc box < 2^32 bytes, "
+                        "aux_consistent: entries < 256 bytes (C07-F1 beyond); saio: box sizes unchanged between EncryptFragment and Encode (C07-F2)",
+                        "trex / file theorems: the decrypt side resolves sample sizes with the same trex as the encrypt side; cenc (cbcs: generic theorem with a length hypothesis)",
+                        "init: no sample entry owns a sinf before protection"]
     exe, model = build(ctx)
     pr = ctx.proofs("c06", "C06Theorems.v")
     n = ctx.n(400, 8000)
@@ -68,7 +84,11 @@ def run(ctx):
                         "constant IV, IV count != sample count, missing/short sub-sample lists, maps beyond the sample, bad keys, "
                         "schemes cenc/cbcs/other, patterns 1:9 and 0:0; S RemoveEncryptionBoxes on trafs mixing saiz/saio/senc/tfxd/tfrf/"
                         "unknown/free/trun/tfdt; G DecryptFragment after EncryptFragment+encode+decode (AVC/HEVC/audio, both schemes, "
-                        "extra boxes in moof/traf, optional pssh in moof) and on the fragments of the 5 third-party encrypted files (PIFF uuid-senc, several truns): children kinds/sizes/identity, trun data offset, mdat position",
+                        "extra boxes in moof/traf, optional pssh in moof) and on the fragments of the 5 third-party encrypted files (PIFF uuid-senc, several truns): children kinds/sizes/identity, trun data offset, mdat position; "
+                        "E senc/saiz/saio boxes of the moof that EncryptFragment+Encode really wrote (found by walking the bytes) compared byte for byte with the model's encoding computed from IV, sample lengths and protection ranges only, senc position, saio offset, and the SencBox after DecodeFile / after ParseReadSenc with perSampleIVSize tenc,0,8,16 (AVC/HEVC/audio, both schemes, a sample without ranges now and then); "
+                        "M malformed senc boxes (wrong flags/counts up to 2^32-1, truncated/extended payload, size field beyond the data, version 1, random payload, IVs that look like sub-sample counts) through DecodeBox and DecodeBoxSR + ParseReadBox(0,8,16,5); "
+                        "T sample sizes resolved by GetFullSamples with the file's trex and with nil on decoded clear files that signal sizes in trun / tfhd / trex only; "
+                        "Q DecryptInit on moovs assembled from 1-3 tracks x 1-3 entries protected one by one by InitProtect (clear entries/tracks in between, avc3/hev1, btrt, unknown children, own sinf, pssh)",
     }
     ctx.cov["samples"] += [l[:300] for l in lines[10:12]] + [l[:300] for l in lines[n + 5:n + 7]] + [l[:300] for l in lines[-2:]]
     ctx.log("correspondence: %d cases, %d mismatches" % (len(lines), len(mism)))
@@ -113,7 +133,7 @@ def run(ctx):
     ctx.cov["rule"] = ("corr: %d case lines (kinds %s), distinct = distinct case lines; search: %d synthetic clear tracks (AVC/HEVC NALU "
                        "size mixes around 1,15-17,107-128,65535+-1, audio; cenc/cbcs; 8/16-byte IVs incl. ff..ff; extra uuid/unknown/free "
                        "boxes in moof/traf, optional pssh in moof) through InitProtect/EncryptFragment -> encode -> decode -> DecryptInit/DecryptFragment -> encode, "
-                       "byte comparison with the clear file (then per-clause diagnosis); %d whole files built like mp4ff-encrypt/-decrypt process them (1-4 fragments, styp, 0-2 pssh in moov, tfhd base_data_offset variants); 5 third-party encrypted files: sizes/timing kept"
+                       "byte comparison with the clear file (then per-clause diagnosis); %d whole files built like mp4ff-encrypt/-decrypt process them (1-4 fragments, styp, 0-2 pssh in moov, tfhd base_data_offset variants; every second file against a non-trivial trex with sample size/duration/flags per fragment in trun, in tfhd defaults or only in trex + first-sample-flags), the intermediate encrypted file checked sample by sample against a reference AES-CTR / AES-CBC-pattern encryption (crypto/aes only) under the senc entry, whose sub-sample map must be the protection ranges of the clear sample; 5 third-party encrypted files: sizes/timing kept"
                        % (len(lines), kinds, ns, ns // 2))
 
 
